@@ -16,7 +16,11 @@ def run(rep, tier, seed, replay):
                        "tied to the real code by comparing the raw m_heap array after every case",
                        "int64 overflow of microsecond arithmetic is outside the model (|t| < 2^62)",
                        "python reference spec gen/c19.py (Spec/oracle: finite map entry -> due time) for the property verdict on implementation outputs",
-                       "harness/c19.cc slot budget (fuel_exhausted thrown from the slot after k invocations per perform)"]))
+                       "harness/c19.cc slot budget (fuel_exhausted thrown from the slot after k invocations per perform)",
+                       "op L drives the REAL Thread::process_events of a harness Thread subclass; the clock read by utils::time_since_epoch() is "
+                       "std::chrono::system_clock::now() interposed by the harness executable; the two lines of Thread::event_loop between "
+                       "process_events() and Poll::do_poll(timeout) (max(next_timeout(),0); m_scheduler->next_timeout) are replicated in the harness, "
+                       "event_loop itself and Poll::do_poll are not run"]))
     model = ltv.build_model("C19")
     impl = ltv.build_harness("c19", ["c19.cc"])
     if replay:
@@ -52,10 +56,10 @@ def run(rep, tier, seed, replay):
             if viol:
                 kl, text = viol[0]
                 rep.violation("model and implementation differ AND the property fails on the implementation: " + text,
-                              case=case, model=m, impl=o, theorem="correspondence C19 (firing log, next_timeout, heap array)", klass=kl)
+                              case=case, model=m, impl=o, theorem="correspondence C19 (firing log, next_timeout, loop-iteration clocks and poll timeout, heap array)", klass=kl)
             else:
                 rep.violation("correspondence broken: model and implementation differ on this op list (property oracle holds on it)",
-                              case=case, model=m, impl=o, theorem="correspondence C19 (firing log, next_timeout, heap array)", found_input=False)
+                              case=case, model=m, impl=o, theorem="correspondence C19 (firing log, next_timeout, loop-iteration clocks and poll timeout, heap array)", found_input=False)
         else:
             for kl, text in viol:
                 if reported.get(kl, 0) >= 5:
@@ -67,7 +71,7 @@ def run(rep, tier, seed, replay):
             coq["discharged"], coq["obligations"], "; ".join(coq["lint"] + coq["bad_axioms"]), coq["log"][-1500:]),
             theorem="coq/C19/Properties.v", found_input=False)
     rep.cov.update(evaluations=len(cases), distinct_nontrivial=len(nontrivial),
-                   rule="cases = corpus + hand list + random structured + malformed + big + exhaustive small scope "
+                   rule="cases = corpus + hand list + random structured + malformed + big + event-loop iterations (random + exhaustive small scope) + exhaustive small scope "
                         "(quick: all op lists of length<=3 over 3 entries x 3 times x 2 handler configs; thorough: length<=4, and length 5 over 2x2); "
                         "non-trivial = distinct case in which the implementation fired at least one timer, the slot budget was not hit and the oracle holds",
                    samples=samples, input_distribution=stats, mismatches=mism, fuel_cases=fuel, performs_in_nontrivial=fired,
